@@ -32,7 +32,7 @@ var props = map[string]Prop{
 		Stages: []Stage{
 			{Name: "exhaustive", Test: "TestC09Exhaustive", Shards: [2]int{4, 16}, Timeout: [2]time.Duration{5 * min, 20 * min}},
 			{Name: "sourcechars", Test: "TestC09SourceChars", Shards: [2]int{2, 8}, SeedOffset: 2, Timeout: [2]time.Duration{5 * min, 20 * min}},
-			{Name: "random", Test: "TestC09Random", Shards: [2]int{2, 16}, Checks: [2]int{15000, 600000}, SeedOffset: 1, Timeout: [2]time.Duration{5 * min, 20 * min}},
+			{Name: "random", Test: "TestC09Random", Shards: [2]int{2, 16}, Checks: [2]int{15000, 250000}, SeedOffset: 1, Timeout: [2]time.Duration{5 * min, 20 * min}},
 		},
 		Rule: "exhaustive: every string of length <= 4 (quick) / <= 5 (thorough) over a 27-symbol representative alphabet and over a complementary 26-symbol alphabet (E, X, f, remaining operators and brackets, TAB, CR, space, runes of 2-4 bytes, U+FFFD, a truncated rune, a stray 0xA0 byte), each visited once; random: rapid-generated strings up to 64 bytes built from lexeme fragments, arbitrary bytes and runes. Oracle: partition laws, differential against an independent reference tokenizer (kinds, spans, values, numbers as exact rationals), re-scan idempotence, numeric accessors. Non-trivial = the string contains a multi-character lexeme or drives the scanner through a look-ahead state (after 0, 0x, '.', exponent, backslash, '/', '=', '!', '<', '>', inside quotes) with at least one following character; distinct = distinct strings (exhaustive part distinct by construction, random part by hash).",
 		Assumptions: []string{
@@ -44,7 +44,7 @@ var props = map[string]Prop{
 	"C15": {
 		Stages: []Stage{
 			{Name: "exhaustive", Test: "TestC15Exhaustive", Shards: [2]int{4, 16}, Timeout: [2]time.Duration{5 * min, 30 * min}},
-			{Name: "random", Test: "TestC15Random", Shards: [2]int{2, 16}, Checks: [2]int{8000, 300000}, SeedOffset: 1, Timeout: [2]time.Duration{5 * min, 20 * min}},
+			{Name: "random", Test: "TestC15Random", Shards: [2]int{2, 16}, Checks: [2]int{8000, 100000}, SeedOffset: 1, Timeout: [2]time.Duration{5 * min, 20 * min}},
 		},
 		Rule: "exhaustive: every string of length <= 4 (quick) / <= 5 (thorough) over the 27-symbol alphabet and over the complementary 26-symbol alphabet (the first contains ';', all three quotes, '/', '!', newline); random: rapid-generated concatenations of statement fragments, semicolons, unterminated tokens and look-ahead lexemes. Oracle: join(pieces, ';') == source; #pieces == #semicolon tokens + 1; each piece is the text between consecutive semicolon tokens; Scan(piece) has no semicolon token and equals the context tokens shifted by the piece offset; Parse(source) succeeds iff every non-empty piece parses, and then statement k equals Parse(piece k) up to the span shift. Non-trivial = at least one semicolon token and (a semicolon byte that is not a token, or a semicolon directly after a look-ahead character); distinct = distinct strings.",
 		Assumptions: []string{"reflective structural comparison over the exported AST fields defines 'the same statement'"},
@@ -117,6 +117,7 @@ var props = map[string]Prop{
 		},
 		Rule: "sequences: every sequence of the ten non-join operator kinds of length <= 3 (thorough 4), each instantiated with 4 (thorough 8) rapid draws of well-typed arguments (schema threaded through the pipeline; project renames onto existing column names one time in three; later operators use the new names) and of a small database (0-6 rows, 4-value domains, NULLs, duplicate rows); random: sequences up to length 8 with repetition. Oracle: the emitted SQL, parsed by the independent SQL front end and evaluated with list semantics under both name-resolution disciplines (output alias first / source column first; readings that are not valid SQL are dropped), must return the columns (names and order) and rows of the reference interpreter that applies the operators left to right; rows are compared as sequences when a sort determines the final order (ties: accepted only if equal as multisets and ordered consistently with that sort), else as multisets. Non-trivial = a take/top adjacent to sort/where/project/summarize/extend/take/top, or a sort after a name-changing operator, or two sorts or two takes, or an operator after render/as, on a non-empty table with a tie or a NULL; distinct = operator kinds x argument shape.",
 		Assumptions: []string{
+			"a row limit that no sort precedes keeps the first rows in the order the evaluator produced them, in the SQL evaluator and in the reference interpreter alike (SQL leaves that choice open; an emitted statement that is correct only under another choice would be reported)",
 			"a subquery's row order is preserved by an outer SELECT/WHERE and ORDER BY is stable (single-stream ClickHouse behaviour the repository's goldens rely on)",
 			"extend/summarize never reuse an existing column name; unnamed computed columns are compared by position only; take counts are non-negative integers",
 			"values the properties are silent about (=~ with NULL operand, strcat with NULL argument) make a case don't-care (skipped, counted)",
@@ -128,6 +129,7 @@ var props = map[string]Prop{
 		},
 		Rule: "rapid-generated well-typed programs: a left prefix of 0-3 operators, a join, 0-3 further operators (more joins allowed); every join kind (absent, innerunique, inner, leftouter); conditions: bare key, $left.a == $right.b in both orientations, extra equalities, non-equi comparisons, one-sided predicates, and/or combinations; right-hand pipelines of 0-3 operators with joins nested to depth 2 (thorough 3); right-hand sides that read an earlier `as` name; databases of three tables with overlapping key domains, duplicate rows, unmatched rows, NULL keys. Oracle as C02 (rows as multisets unless a later sort determines the order) against the reference join semantics of the C03 statement. Non-trivial = at least one join on a database that distinguishes the kinds (duplicate left rows, unmatched or NULL keys) and ((non-empty prefix and multi-operator right side) or nested join or >= 2 joins); distinct = program shape.",
 		Assumptions: []string{
+			"a row limit that no sort precedes keeps the first rows in evaluation order on both sides of the comparison (see C02)",
 			"as C02; unqualified column references after a join are only generated for names that occur on one side",
 			"one program in six has `let k = n` in front and still uses the bare join key `on k`: the check asserts the documented meaning of a bare name after `on` ($left.k == $right.k); all other references to column k are written in backticks there",
 			"`==` between $left and $right terms is only generated as a top-level (AND-ed) condition: there pql's plain `=` and a NULL-safe equality select the same pairs",
